@@ -19,7 +19,7 @@ func init() {
 		ID:    "C11",
 		Level: "exploration",
 		Rule: "directed identity search: for every pair of distinct nodes (elements, attributes, text, comments) of each hostile-name document (names a, a-1, a-1-1, a-1-2, b1, a.b, a1; repeated names and values; same text at several depths) and of wide documents whose same-named siblings have two-digit positions on several levels the union of the two absolute paths addressing exactly those nodes must deliver 2 nodes; " +
-			"the same pair search and a list of identity-sensitive expressions (ancestor steps, unions, positional access) on a document with 300 (thorough: also 66000) same-named siblings, 300 attributes on one element and a chain of 300 nested elements - positions that do not fit a byte (or a 16-bit word); " +
+			"the same pair search and a list of identity-sensitive expressions (ancestor steps, unions, positional access) on documents with 300 / 1100 (thorough: also 66000) same-named siblings, as many attributes on one element and a chain of as many nested elements - positions that do not fit a byte (or a 16-bit word); " +
 			"plus seeded random unions of two or three predicate-free paths of 1-3 steps over all axes (overlapping and disjoint operands, attributes/text/comments, nested unions, the sequence form p/(a, b)). Non-trivial: both operands non-empty; distinct by (expression text, document, context).",
 		Assume:        []string{"reference evaluator internal/xref; node identity in the harness is pointer identity"},
 		MinNontrivial: tierN(6000, 80000),
@@ -241,7 +241,7 @@ func bigDoc(fan int) *xdoc.Doc {
 
 var c11BigExprs = []string{
 	"//sub/ancestor::item", "//sub/..", "/r/list/item[257]", "count(/r/list/item)", "//item[last()]", "/r/attrs/@*", "count(/r/attrs/@*)", "/r/attrs/@a257 | /r/attrs/@a1",
-	"//n[not(n)]/ancestor::n", "count(//n)", "(//item)[300]", "/r/list/item[position() > 255][1]", "//item[sub][3]", "//item[sub]/sub[1] | //item[sub]/sub[2]",
+	"//n[not(n)]/ancestor::n", "count(//n)", "count(/r/deep/descendant::n)", "count(//n[not(n)]/ancestor-or-self::*)", "count(/r/deep//text())", "//n[not(n)]/text()", "count(/descendant-or-self::node())", "/r/list/item[last()]/following::n[not(n)]", "(//item)[300]", "/r/list/item[position() > 255][1]", "//item[sub][3]", "//item[sub]/sub[1] | //item[sub]/sub[2]",
 	"/r/list/item[1] | /r/list/item[257]", "/r/list/item | /r/list/item[position() > 250]", "count(/r/list/item[1]/following-sibling::item)",
 	"//text()[. = 'bottom']/ancestor::*", "count(//text()[. = 'bottom']/ancestor::n)", "//n[count(ancestor::n) = 256]", "/r/list/node()[300] | /r/list/node()[44]", "count(//item/sub/ancestor::*)",
 	"//item[position() = 256 or position() = 257 or position() = 1]", "count(/r/deep//n[not(n)]/ancestor-or-self::n)",
@@ -251,6 +251,9 @@ var c11BigExprs = []string{
 // expressions, on documents with very long sibling lists, attribute lists and ancestor chains.
 func c11Big(c *Case) {
 	fan := 300
+	if c.Index%3 == 2 {
+		fan = 1100 // beyond 1024 in every dimension (depth of the nested chain included)
+	}
 	if c.Tier == "thorough" && c.Index%4 == 3 {
 		fan = 66000
 	}
@@ -313,11 +316,15 @@ func c11Big(c *Case) {
 			break
 		}
 	}
-	if len(chain) > 260 && !check(chain[g.Intn(len(chain)-256)], chain[len(chain)-1]) {
-		return
+	// (address paths of at most ~300 steps: a longer path is legitimately "too complex" for the engine's builder)
+	if len(chain) > 290 {
+		i := g.Intn(30)
+		if !check(chain[i], chain[i+256]) {
+			return
+		}
 	}
-	if fan > 1000 {
-		return // the expression list is evaluated on the 300-fan document only (cost)
+	if fan > 2000 {
+		return // the expression list is evaluated on the 300- and 1100-fan documents only (cost)
 	}
 	src := c11BigExprs[c.Index%len(c11BigExprs)]
 	ast := mustParse(src)
